@@ -1,4 +1,4 @@
-CONSTANTS Wide = FALSE MaxExtra = 0 Mixture = FALSE
+CONSTANTS Decomp = FALSE Wide = FALSE MaxExtra = 0 Mixture = FALSE
 SPECIFICATION Spec
 INVARIANT Ctl_NoPreconditionNeeded
 CHECK_DEADLOCK FALSE
